@@ -70,6 +70,30 @@ func (c *FuncCtx) evalCall(st *State, x *ast.CallExpr) []*Val {
 				if sf, ok := c.eng.spec.Funcs[f.Name]; ok {
 					return []*Val{c.callSpecFunc(st, sf, x)}
 				}
+				if con := c.eng.spec.Contracts[f.Name]; con != nil && con.Assumed {
+					// a spec-only (ghost) function declared by an assumed contract
+					var ps, rs []*types.Var
+					for _, fld := range con.Decl.Type.Params.List {
+						t := c.resolveSpecType(fld.Type)
+						for _, n := range fld.Names {
+							ps = append(ps, types.NewVar(token.NoPos, nil, n.Name, t))
+						}
+					}
+					if con.Decl.Type.Results != nil {
+						for _, fld := range con.Decl.Type.Results.List {
+							t := c.resolveSpecType(fld.Type)
+							for _, n := range fld.Names {
+								rs = append(rs, types.NewVar(token.NoPos, nil, n.Name, t))
+							}
+						}
+					}
+					sig := types.NewSignatureType(nil, nil, nil, types.NewTuple(ps...), types.NewTuple(rs...), false)
+					var args []*Val
+					for i, a := range x.Args {
+						args = append(args, c.coerce(st, c.eval(st, a), ps[i].Type()))
+					}
+					return c.applyContract(st, con, sig, nil, args, x.Pos(), f.Name)
+				}
 				limitf("%s: unknown function %q", c.eng.posStr(x.Pos()), f.Name)
 			case *types.Var:
 				return c.callFuncValue(st, c.eval(st, f), c.key+"."+f.Name, x)
@@ -863,10 +887,13 @@ func (e *Engine) defineSpec(c *FuncCtx, sf *SpecFunc, names []string, ptypes []t
 		}()
 		body = scratch.coerce(tmp, scratch.eval(tmp, sf.Body), rt)
 	}()
-	if body == nil || len(tmp.heap) > 0 || len(scratch.decls) > 0 {
-		if sf.Rec {
-			limitf("recursive spec function %s must be heap-free", sf.Name)
-		}
+	if sf.Rec {
+		// may read the heap: its unfold() instances are taken in the heap of
+		// the moment, which is only meaningful for fields the code never
+		// changes after construction (stated in the trusted base)
+		body = &Val{}
+	}
+	if body == nil || (!sf.Rec && (len(tmp.heap) > 0 || len(scratch.decls) > 0)) {
 		e.specDefs[sf.Name] = "macro"
 		return false
 	}
